@@ -2245,7 +2245,7 @@ func c07(c *Ctx) {
 	c07directedFaults(c)
 	c07directedLevels(c)
 	r := NewRNG(c.Seed)
-	nSib, nRand, maxNodes := 600, 1200, 14
+	nSib, nRand, maxNodes := 500, 900, 14
 	if c.Thorough {
 		nSib, nRand, maxNodes = 12000, 25000, 40
 	}
@@ -2260,7 +2260,7 @@ func c07(c *Ctx) {
 		g.use(comp, 6, 3)
 		g.emit(c, comp, g.siblingProg(), "sib")
 	}
-	nFault := 500
+	nFault := 400
 	if c.Thorough {
 		nFault = 12000
 	}
@@ -2269,7 +2269,7 @@ func c07(c *Ctx) {
 		comp := g.use(g.faultComp(i), 10, 5)
 		g.emit(c, comp, g.faultProg(), "fault")
 	}
-	nRelog := 500
+	nRelog := 400
 	if c.Thorough {
 		nRelog = 12000
 	}
